@@ -80,11 +80,8 @@ fn run_restart(c: &Case, ctx: &mut Ctx) -> CaseResult {
 			// written shares its update id with a later unblocked update; after a reload from that manager the ids
 			// collide. Matched on the panic message plus the history condition.
 			let (msg, loc) = vcore::take_last_panic().unwrap_or_default();
-			let lost = netsim::ext_c10::blocked_raa_update_lost_on_reload(&sim);
-			if lost && msg.contains("Attempted to apply post-force-close ChannelMonitorUpdate") {
-				Err(Failure::new("panic", format!("panic at {}: {}", loc, msg)).with_key("panic/post-force-close-update/blocked-update-id-reused-after-stale-reload"))
-			} else if lost && msg.contains("Latest counterparty commitment secret was invalid") {
-				Err(Failure::new("panic", format!("panic at {}: {}", loc, msg)).with_key("panic/commitment-secret-rejected/blocked-raa-update-dropped-on-stale-reload"))
+			if let Some(key) = netsim::ext_c10::classify_id_reuse_panic(&sim, &msg) {
+				Err(Failure::new("panic", format!("panic at {}: {}", loc, msg)).with_key(key))
 			} else {
 				vcore::set_last_panic(Some((msg, loc)));
 				std::panic::resume_unwind(payload)
